@@ -166,6 +166,27 @@ Proof.
   unfold step_finish in Hsf.
   destruct (event_beq ev EvSelectLost && cstate_beq cur SEL) eqn:Eab.
   { inversion Hsf; subst; clear Hsf. exists m. split; [reflexivity|exact R0]. }
+  destruct ((event_beq ev EvDisconnect || event_beq ev EvT7) && existsb is_upc (queue s)) eqn:Estale.
+  { (* stale asynchronous event: ignored *)
+    inversion Hsf; subst; clear Hsf. exists m. split; [reflexivity|exact R0]. }
+  destruct (is_echo ev) eqn:Eecho.
+  { (* commit echo: reports, never stores *)
+    destruct (transition cur ev) as [next ok] eqn:Etr.
+    destruct (ok && cstate_beq next cur && negb (cstate_beq next (lastr s))) eqn:Econd.
+    2:{ inversion Hsf; subst; clear Hsf. exists m. split; [reflexivity|exact R0]. }
+    apply andb_true_iff in Econd. destruct Econd as [Ec1 Ec3].
+    apply negb_true_iff in Ec3. apply cstate_beq_neq in Ec3.
+    destruct (fire (nbuf s) (lastr s) next) as [[b' of] d] eqn:Ef.
+    injection Hsf as <- <-.
+    destruct (fire_ok (nbuf s) (lastr s) next m start b' of d Ef) as (m2 & Hr2 & P1 & P2 & P3 & P4 & Pnn & start' & P5 & P6); try assumption.
+    { intros Hx. apply Ec3. symmetry. exact Hx. }
+    exists m2. split; [exact Hr2|]. constructor; cbn; try assumption.
+    - rewrite P1. exact H1.
+    - rewrite P3. symmetry. exact Hcl.
+    - intros Hx. rewrite Hx in Hcl. discriminate Hcl.
+    - intros e c Hx. discriminate Hx.
+    - exists start'. split; assumption.
+    - intros _. exact Pnn. }
   destruct (transition cur ev) as [next ok] eqn:Etr.
   destruct ok.
   2:{ (* illegal pair: no transition; only evClose could still latch, but evClose is always legal *)
@@ -209,7 +230,8 @@ Proof.
         destruct (chg_ok m (st s) st' (ByStep ev) H1 Hlat) as (m1 & Hr & A & B & C & D & E).
         * intros Hne.
           (* legality of storing st' over the current value, from the loaded state and the pc invariant *)
-          destruct ev, cur; cbn in Etr; inversion Etr; subst; try discriminate; try congruence;
+          destruct ev; try (cbn in Eecho; discriminate Eecho);
+            destruct cur; cbn in Etr; inversion Etr; subst; try discriminate; try congruence;
             destruct (st s) eqn:Es; try reflexivity; try congruence;
             try (exfalso; apply H6; [discriminate|reflexivity]).
         * destruct ev; try exact I. discriminate Et7.
